@@ -57,6 +57,7 @@ TRUSTED_BASE = [
 ]
 
 B18 = os.path.join(C.BUILD, 'c18')
+DRV = os.environ.get('VERIF_C18_DRV', 'virtdrv')      # (a differently built driver, for experiments)
 KNOWN_SIG = 'repartition-trailing-empty-oob'
 EMPTY_SIG = 'partition-empty-range-wrong-type'
 LONG_SIG = 'virtual-declared-length-longer-accepted'
@@ -314,7 +315,8 @@ def gen_part(rng, i):
             steps.append(['pidx', rng.randint(0, cur_n + 1)])
         elif c == 'repartition':
             target = gen_stops(rng, cur_n, 5)
-            if trailing_empty(target, cur_n) and k != nsteps - 1:
+            if trailing_empty(target, cur_n) and (k != nsteps - 1 or rng.random() < 0.8):
+                # (the known defect's trigger: kept rare, and last in its session, because it kills the process)
                 target = [x for j, x in enumerate(target) if not (j >= 1 and x == cur_n and target[j - 1] == cur_n)]
             steps.append(['repartition'] + target)
         else:
@@ -579,7 +581,7 @@ def first_crashing_prefix(c, san):
     x = parse(session_line(c))
     ops = fld(x, 'ops')
     steps = ops[1:]
-    exe = os.path.join(C.SAN if san else C.STD, 'virtdrv')
+    exe = os.path.join(C.SAN if san else C.STD, DRV)
     env = dict(os.environ)
     env['ASAN_OPTIONS'] = 'detect_leaks=0:abort_on_error=1:allocator_may_return_null=1'
     env['UBSAN_OPTIONS'] = 'halt_on_error=1:abort_on_error=1:print_stacktrace=1'
@@ -642,8 +644,21 @@ def run(cases, tier, rng):
             dist[k2][str(v2)] = dist[k2].get(str(v2), 0) + 1
 
     t0 = C.time.time()
-    res, errs = C.run_driver([session_line(c) for c in cases], drv='virtdrv', san=san)
+    res, errs = C.run_driver([session_line(c) for c in cases], drv=DRV, san=san)
+    for attempt in range(4):
+        again = [c for c in cases if res.get(c.id, '').startswith('crash rc=127')
+                 or 'error while loading shared libraries' in errs.get(c.id, '')]
+        if not again:
+            break
+        C.log('%d sessions hit a library that was being rebuilt; retrying' % len(again))
+        C.time.sleep(20)
+        res2, errs2 = C.run_driver([session_line(c) for c in again], drv=DRV, san=san)
+        for c in again:
+            errs.pop(c.id, None)
+        res.update(res2)
+        errs.update(errs2)
     C.log('driver: %d sessions in %.1fs' % (len(cases), C.time.time() - t0))
+    budget = {'minimise': 30}
 
     # ---------------- model runs
     mlines = []
@@ -684,42 +699,60 @@ def run(cases, tier, rng):
             add('bad', 'driver rejected the session: %s' % r[:200], c, [line], no_input=True, obl='corr:virtual==eager')
             continue
         if not r.startswith('ok'):
-            k, phase, tail, minimal = first_crashing_prefix(c, san)
-            if phase == 'E':
-                info['eager_crashes'] += 1        # the eager operation itself dies: not this property's subject
-                bump('eager-crash')
-                continue
             if c.meta.get('malformed'):
                 info['malformed'][r.split()[0] + ' ' + unparse(parse(line)[-1])] = 1
                 bump('malformed-crash')
                 continue
             sig = None
-            if c.op == 'part' and k is not None:
-                st = c.meta['steps'][k]
+            k = None
+            obl = 'corr:partitioned==eager' if c.op == 'part' else 'corr:virtual==eager'
+            if c.op == 'part':
+                # the pinned model predicts where the implementation reads partitions_[numpartitions]
                 mr = mres.get(c.id)
-                pinned_oob = False
-                cur_total = None
                 if mr and mr.startswith('ok'):
                     ms = parse('(' + mr[3:] + ')')
-                    if k < len(ms):
-                        pin = fld(ms[k], 'pinned')
-                        pinned_oob = pin is not None and pin[1:] == ['err', 'oob']
-                        fx = fld(ms[k], 'm')
-                        if fx and fx[1] == 'ok' and isinstance(fx[2], list) and fx[2][0] == 'parts' and fx[2][1]:
-                            cur_total = int(fx[2][1][-1])
-                if st[0] == 'repartition' and cur_total is not None and trailing_empty([int(x) for x in st[1:]], cur_total):
-                    sig = KNOWN_SIG
-                    if not pinned_oob:
-                        add('modeldiff', 'the implementation crashes in repartition but the pinned model does not read out of bounds',
-                            c, [minimal], no_input=True, obl='corr:pinned-model-predicts-crash')
-            if c.op == 'virt' and any(w['lenkind'] == 'toosmall' for w in c.meta['wraps']):
+                    for kk, st in enumerate(c.meta['steps']):
+                        if kk >= len(ms) or st[0] != 'repartition':
+                            continue
+                        pin, fx = fld(ms[kk], 'pinned'), fld(ms[kk], 'm')
+                        if pin is not None and pin[1:] == ['err', 'oob'] and fx[1] == 'ok' and fx[2][1] \
+                                and trailing_empty([int(x) for x in st[1:]], int(fx[2][1][-1])):
+                            sig, k = KNOWN_SIG, kk
+                            break
+            elif any(w['lenkind'] == 'toosmall' for w in c.meta['wraps']):
                 sig = LONG_SIG     # the accepted longer payload makes length() and the buffers disagree
+            rep = 'reps:%s' % sig
+            if sig is not None and budget.get(rep, 0) >= 2:
+                bump('crash')
+                info.setdefault('crashes_by_signature', {})
+                info['crashes_by_signature'][sig] = info['crashes_by_signature'].get(sig, 0) + 1
+                if not (sig in known_sigs):
+                    corr[obl] = False
+                continue
+            if budget['minimise'] <= 0:
+                bump('crash')
+                add('crash', '%s session: implementation crashed/hung [%s] (not minimised)' % (c.op, r), c,
+                    [line, '# stderr: ' + errs.get(c.id, '')[-800:].replace('\n', '\n# ')], sig, obl=obl)
+                continue
+            budget['minimise'] -= 1
+            budget[rep] = budget.get(rep, 0) + 1
+            k2, phase, tail, minimal = first_crashing_prefix(c, san)
+            if phase == 'E':
+                info['eager_crashes'] += 1        # the eager operation itself dies: not this property's subject
+                bump('eager-crash')
+                info.setdefault('eager_crash_sessions', []).append(minimal[:600])
+                continue
+            if sig == KNOWN_SIG and k2 != k:
+                sig = None                          # it died somewhere else than predicted
+            if c.op == 'part' and sig is None and k2 is not None and c.meta['steps'][k2][0] == 'repartition':
+                add('modeldiff', 'the implementation crashes in repartition where the pinned model does not read out of bounds',
+                    c, [minimal], no_input=True, obl='corr:pinned-model-predicts-crash')
             bump('crash')
+            info.setdefault('crashes_by_signature', {})
+            info['crashes_by_signature'][str(sig)] = info['crashes_by_signature'].get(str(sig), 0) + 1
             what = ('%s session: implementation crashed/hung in step %s (%s phase) [%s]' %
-                    (c.op, k, {'V': 'virtual', 'P': 'partitioned', 'Q': 'partitioned(positions)'}.get(phase, phase),
-                     r))
-            add('crash', what, c, [minimal, '# full session: ' + line] + ['# ' + l for l in tail.splitlines()[:25]], sig,
-                obl='corr:partitioned==eager' if c.op == 'part' else 'corr:virtual==eager')
+                    (c.op, k2, {'V': 'virtual', 'P': 'partitioned', 'Q': 'partitioned(positions)'}.get(phase, phase), r))
+            add('crash', what, c, [minimal, '# full session: ' + line] + ['# ' + l for l in tail.splitlines()[:25]], sig, obl=obl)
             continue
         steps_out = parsed.get(c.id)
         if steps_out is None:
